@@ -259,7 +259,7 @@ _T = chi2.ppf(1 - significance_level, _DF)
     ok = b is not None
     ctx.add('C08.R1', 'likelihood_ratio_test', ok, lr, 'the model with the larger log likelihood is the unrestricted one; statistic = -2 (L_r - L_u), degrees of freedom = K_u - K_r' if ok else 'the likelihood ratio statistic / roles / degrees of freedom changed', 'lr')
     if ok:
-        ok2 = has(lr.node, f'return LRTuple(message=_M, statistic={b["_S"]}, threshold={b["_T"]})')
+        ok2 = has(lr.node, f'return LRTuple(message=__M, statistic={b["_S"]}, threshold={b["_T"]})')
         ctx.add('C08.R1', 'likelihood_ratio_test:result', ok2, lr, 'the statistic and its threshold are reported under their own names' if ok2 else 'the reported statistic / threshold changed', 'result')
     m = BR.methods['likelihood_ratio_test']
     ok = has(m.node, """
@@ -374,7 +374,7 @@ return biogeme.tools.likelihood_ratio.likelihood_ratio_test((_LU, _KU), (_LR, _K
     _PS = "_S = (f'({_B.robust_stdErr:.3g})' if include_robust_stderr else '') if _B.robust_stdErr is not None else __Q1\n"
     _PT = "_T = (f'({_B.robust_tTest:.3g})' if include_robust_ttest else '') if _B.robust_tTest is not None else __Q2\n"
     _PV = "_V = f'{_B.value:.3g} {_S} {_T}'"
-    okfmt = has(ce.node, _PS + _PT + '___\n' + _PV) or has(ce.node, _PT + _PS + '___\n' + _PV)
+    okfmt = has(ce.node, _PS + _PT + _PV) or has(ce.node, _PT + _PS + _PV) or has(ce.node, _PS + _PT + '___\n' + _PV) or has(ce.node, _PT + _PS + '___\n' + _PV)
     ctx.add('C08.R3', 'compile_estimation_results:formatted', okfmt, ce, 'formatted cell = value (robust std err) (robust t-test)' if okfmt else 'formatted cell of the compiled table changed', 'fmt')
     for fam in FAMILIES:
         m = BR.methods[f'get_{fam}var_covar']
